@@ -100,6 +100,17 @@ let () =
         let (k, e) = Model.read_pages (bool_of_tok cur) (n_of_int (int_of_string size)) (n_of_int (int_of_string avail)) Model.N0 ps in
         Printf.sprintf "%d/%s" (int_of_nat k) (match e with Model.PEnd -> "end" | Model.PUnexpected -> "unexpected")
     | _ -> failwith "c14.pages args");
+  (* c14.seekpages <cur> <noindex> <size> <avail> <dict pages|_> <skipped pages|_> <rest pages>
+     SeekToRow then ReadPage to the end of the chunk  ->  <pages returned>/<end|unexpected> *)
+  register "c14.seekpages" (function
+    | [cur; noindex; size; avail; dict; skipped; rest] ->
+        let parse s = if s = "_" then [] else List.map (fun x -> match String.split_on_char ':' x with
+          | [h; b] -> (n_of_int (int_of_string h), n_of_int (int_of_string b))
+          | _ -> failwith "page") (split_on ',' s) in
+        let (k, e) = Model.seek_read_pages (bool_of_tok cur) (bool_of_tok noindex) (n_of_int (int_of_string size))
+            (n_of_int (int_of_string avail)) (parse dict) (parse skipped) (parse rest) in
+        Printf.sprintf "%d/%s" (int_of_nat k) (match e with Model.PEnd -> "end" | Model.PUnexpected -> "unexpected")
+    | _ -> failwith "c14.seekpages args");
   (* c14.readat <size> <off> <len> <n> <nil|eof|other> : File.ReadAt over a reader answering (n, err) to the forwarded call *)
   register "c14.readat" (function
     | [size; off; len; n; e] ->
